@@ -62,12 +62,12 @@ def handleTokens (inp : List String) (obs : String) : Verdict :=
       let mres := align c.al (c.call false)
       let m := modelObsLL c mres
       let agree := m == normObs obs
-      let base := [opTag c, "r-" ++ lenTag c.r.length, "q-" ++ lenTag c.q.length,
+      let base := [opTag c, shapeTag c, "r-" ++ lenTag c.r.length, "q-" ++ lenTag c.q.length,
                    if c.alpha.length ≤ 4 then "small-alphabet" else if c.alpha.length ≤ 5 then "dna" else "protein"]
       match mres with
       | .ok mps =>
         let inScope := !c.r.isEmpty && !c.q.isEmpty && gapsNonPos c
-        let tags := base ++ (if inScope then ["nt"] else ["outside-hypotheses"]) ++
+        let tags := base ++ contentTags c ++ (if inScope then ["nt"] else ["outside-hypotheses"]) ++
           (if total mps == 0 then ["optimum-zero"] else if total mps > 0 then ["optimum-positive"] else ["optimum-negative"]) ++
           (if mps.length ≥ 3 then ["gapped-path"] else []) ++
           (if c.al == .fit && endRef mps == 0 then ["fit-no-admissible-end"] else [])
